@@ -62,6 +62,7 @@ def run(ctx):
     rekeyed_stream(ctx, cirq, checks, 5 * n)
     noisy_terminal_checks(ctx, cirq, checks, 24 * n)
     sample_stream(ctx, cirq, 25 * n)
+    seed_grid(ctx, cirq)
     evaluate(ctx, checks)
 
 
@@ -457,6 +458,72 @@ def sample_stream(ctx, cirq, n):
                     ctx.violation(f'int-seed-correlated:{how}', f'{Sim.__name__} step.{how}(..., repetitions=64, seed={seed}) on H(q0),H(q1) with '
                                   f'split_untangled_states=True returned perfectly correlated columns (probability 2^-63 for independent fair bits)',
                                   dict(kind='int-seed', simulator=Sim.__name__, seed=seed, how=how))
+
+
+def seed_grid(ctx, cirq):
+    """An integer seed means "a fresh numpy RandomState(seed)" (cirq.RANDOM_STATE_OR_SEED_LIKE): every sampling entry point must return
+    bit for bit what it returns when handed np.random.RandomState(seed) itself, for several repetitions (an entry point that re-parses
+    the integer per repetition or per qubit replays one random stream and fails this), and the repetitions of a uniform two-bit
+    state must not be all equal / perfectly correlated (probability < 2^-60)."""
+    q = cirq.LineQubit.range(3)
+    prep = cirq.Circuit(cirq.H(q[0]), cirq.H(q[1]), cirq.CNOT(q[1], q[2]))
+    v = cirq.final_state_vector(prep, qubit_order=q)
+    rho = cirq.final_density_matrix(prep, qubit_order=q)
+    mops = [cirq.measure(q[0], q[2], key='a'), cirq.measure(q[1], key='b')]
+    R = 48
+
+    def steps(Sim, **kw):
+        return list(Sim(**kw).simulate_moment_steps(prep, qubit_order=q))[-1]
+
+    def rep_state(kind):
+        if kind == 'tableau':
+            st = cirq.CliffordTableauSimulationState(cirq.CliffordTableau(3), qubits=q, prng=np.random.RandomState(0))
+        else:
+            st = cirq.StabilizerChFormSimulationState(qubits=q, prng=np.random.RandomState(0), initial_state=0)
+        for op in prep.all_operations():
+            cirq.act_on(op, st)
+        return st
+    entries = {}
+    for name, Sim, kw in (('Simulator[split]', cirq.Simulator, dict(split_untangled_states=True)), ('Simulator[no split]', cirq.Simulator, dict(split_untangled_states=False)),
+                          ('DensityMatrixSimulator[split]', cirq.DensityMatrixSimulator, dict(split_untangled_states=True)),
+                          ('DensityMatrixSimulator[no split]', cirq.DensityMatrixSimulator, dict(split_untangled_states=False)),
+                          ('CliffordSimulator[split]', cirq.CliffordSimulator, dict(split_untangled_states=True)),
+                          ('CliffordSimulator[no split]', cirq.CliffordSimulator, dict(split_untangled_states=False))):
+        entries[f'{name} step.sample'] = (lambda seed, Sim=Sim, kw=kw: np.asarray(steps(Sim, **kw).sample(q, repetitions=R, seed=seed)))
+        entries[f'{name} step.sample_measurement_ops'] = (lambda seed, Sim=Sim, kw=kw: np.concatenate(
+            [np.asarray(x).reshape(R, -1) for _, x in sorted(steps(Sim, **kw).sample_measurement_ops(mops, repetitions=R, seed=seed).items())], axis=1))
+        entries[f'{name}(seed).run'] = (lambda seed, Sim=Sim, kw=kw: np.concatenate(
+            [np.asarray(x).reshape(R, -1) for _, x in sorted(Sim(seed=seed, **kw).run(prep + cirq.Circuit(mops), repetitions=R).records.items())], axis=1))
+    entries['sample_state_vector'] = lambda seed: np.asarray(cirq.sample_state_vector(v, [0, 1, 2], repetitions=R, seed=seed))
+    entries['sample_density_matrix'] = lambda seed: np.asarray(cirq.sample_density_matrix(rho, [0, 1, 2], repetitions=R, seed=seed))
+    entries['measure_state_vector x R'] = lambda seed: (lambda rs: np.asarray([cirq.measure_state_vector(v, [0, 1, 2], seed=rs)[0] for _ in range(R)]))(
+        seed if not isinstance(seed, int) else np.random.RandomState(seed))
+    entries['cirq.sample'] = lambda seed: np.concatenate([np.asarray(x).reshape(R, -1) for _, x in sorted(cirq.sample(prep + cirq.Circuit(mops), repetitions=R, seed=seed).records.items())], axis=1)
+    entries['StabilizerSampler(seed).run'] = lambda seed: np.concatenate(
+        [np.asarray(x).reshape(R, -1) for _, x in sorted(cirq.StabilizerSampler(seed=seed).run(prep + cirq.Circuit(mops), repetitions=R).records.items())], axis=1)
+    for kind in ('tableau', 'ch-form'):
+        entries[f'{kind} simulation state.sample'] = lambda seed, kind=kind: np.asarray(rep_state(kind).sample(q, repetitions=R, seed=seed))
+        entries[f'{kind} representation.sample'] = lambda seed, kind=kind: np.asarray(rep_state(kind)._state.sample([0, 1, 2], repetitions=R, seed=seed))
+    for name, f in entries.items():
+        for seed in (0, 1, 7, 12345):
+            try:
+                a = f(seed)
+                b = f(np.random.RandomState(seed))
+            except Exception as e:
+                ctx.violation(f'seed-grid:raises:{name}', f'{name} with seed={seed} raised {type(e).__name__}: {e}', dict(kind='seed-grid', entry=name, seed=seed))
+                break
+            ctx.count('seed-grid', [name, seed], True, sample=dict(entry=name, seed=seed, first_rows=a[:3].tolist()))
+            if a.shape != b.shape or not (a == b).all():
+                ctx.violation(f'seed-grid:int-seed-is-not-RandomState(seed):{name}',
+                              f'{name}: the integer seed {seed} does not give the samples of np.random.RandomState({seed}) (first rows {a[:4].tolist()} vs {b[:4].tolist()})',
+                              dict(kind='seed-grid', entry=name, seed=seed))
+                break
+            bits = a.reshape(R, -1)
+            if (bits == bits[0]).all() or (bits[:, 0] == bits[:, 1]).all() or (bits[:, 0] != bits[:, 1]).all():
+                ctx.violation(f'seed-grid:repetitions-not-independent:{name}',
+                              f'{name} with seed={seed}: {R} repetitions of two independent fair bits came out all equal or perfectly correlated (rows {bits[:4].tolist()} ...)',
+                              dict(kind='seed-grid', entry=name, seed=seed))
+                break
 
 
 def evaluate(ctx, checks):
